@@ -76,6 +76,19 @@ theorem copy_preserves (ws : Writer.Flds) (p : Bytes) (fs : List (Nat × Bytes))
     obtain ⟨M, h1, _, h2, h3⟩ := C01.msg_field_found q l tag v r hwf (hdw (tag, v) hmem)
     exact ⟨M, h1, h2, h3⟩
 
+/-- the same at any nesting depth: in every live session whose innermost open container is a message
+(whatever was written before, however deep), Copy/Merge from a well-formed source is answered `ok`
+and leaves the writer exactly as `Field(tag).Any(value)` calls for the source fields with tags the
+message does not have yet would; `C01.writer_refines_layout` then gives the bytes of the whole tree -/
+theorem copy_any_depth (s : Writer.Sess) (idx idx' h : Nat) (st : Writer.WState) (base : List Writer.Entry)
+    (m : Writer.Entry) (p : Bytes) (fs : List (Nat × Bytes)) (wf : MsgWF fs) (hd : ∀ f ∈ fs, Delim f.2)
+    (he : s.w.err = none) (hs : s.w.st = some st) (hst : st.stack = base ++ [m]) (hm : m.type_ = .message)
+    (hts : m.tableStart ≤ st.fields.length) (hh : s.handles[h]? = some ⟨.M, false⟩) :
+    Writer.step s idx (.copy h (p ++ encMsg fs)) =
+        ((Writer.runFrom s idx' (Writer.rawFields h (Writer.copiedIn st m fs))).1, .ok) ∧
+      Writer.AllOk (Writer.runFrom s idx' (Writer.rawFields h (Writer.copiedIn st m fs))).2 :=
+  Writer.copy_eq_rawFields s idx idx' h st base m p fs wf hd he hs hst hm hts hh
+
 /-- non-vacuity: the writer knows tag 1 only, the source has tags 1 and 300 — tag 300 is copied,
 tag 1 is not -/
 example : Writer.copiedOf [1] [(300, encByte 7), (1, encBool true)] = [(300, encByte 7)] := by decide
